@@ -12,6 +12,9 @@ fn main() {
     if args[1] == "C15" && args[2] == "probe" {
         std::process::exit(c15::probe_main());
     }
+    if args[1] == "C15" && args[2] == "run-one" {
+        std::process::exit(c15::run_one_main());
+    }
     if args[1] == "time" {
         c15::timing();
         return;
